@@ -139,7 +139,8 @@ func (c *Ctx) ghostInit(st *State, r string, t types.Type) {
 				h := c.ghostHeap(name, srt)
 				c.heapSet(st, h, "(store "+c.heapGet(st, h, c.heapSort[h])+" "+r+" "+val+")")
 			}
-			set("buflen", mi, zero)
+			set("spos", mi, zero)
+			set("send", mi, zero)
 			set("accepted", mi, zero)
 			set("failed", "Bool", "false")
 			c.declFun("uf$emptyBytes", nil, "Bytes")
@@ -565,7 +566,14 @@ func (f *Frame) load(p Val, t types.Type, st *State, pos token.Pos) Val {
 		return f.freshVal("load", t, st, f.curGuard)
 	}
 	term = c.name(f.fn.Name()+".ld", term, c.sortOf(t))
-	c.assume(f.curGuard, c.typeFacts(term, t, c.allocTerm(st)))
+	// references found in a heap version existed when that version was made
+	front := c.allocTerm(st)
+	if p.Loc != nil {
+		if fr, ok := c.frontier[c.heapGet(st, p.Loc.Heap, c.heapSort[p.Loc.Heap])]; ok && fr != "" {
+			front = fr
+		}
+	}
+	c.assume(f.curGuard, c.typeFacts(term, t, front))
 	return Val{T: term, Typ: t}
 }
 
@@ -645,6 +653,18 @@ func (c *Ctx) iadd(a, b string) string {
 	}
 	return "(+ " + a + " " + b + ")"
 }
+// eidx is the element index off+i written with the uninterpreted-looking
+// function ix (axiom: ix(a,b) = a+b) so that E-matching sees a stable shape.
+func (c *Ctx) eidx(off, i string) string {
+	if off == c.idxLit(0) {
+		return i
+	}
+	if i == c.idxLit(0) {
+		return off
+	}
+	return "(ix " + off + " " + i + ")"
+}
+
 func (c *Ctx) isub(a, b string) string {
 	if c.Mode == ModeBV {
 		return "(bvsub " + a + " " + b + ")"
@@ -684,7 +704,7 @@ func (f *Frame) indexAddr(x *ssa.IndexAddr, st *State) Val {
 		f.oblige("bounds", f.srcKey(x.Pos(), "index"), f.inBounds(i, "(sl.len "+base.T+")"), x.Pos(), "index out of range")
 		h, _ := c.memHeap(u.Elem())
 		c.heapGet(st, h, c.heapSort[h])
-		return Val{Typ: x.Type(), Loc: &Loc{Heap: h, Key: "(sl.base " + base.T + ")", Path: []acc{{Field: -1, Idx: c.iadd("(sl.off "+base.T+")", i)}}, Typ: u.Elem()}}
+		return Val{Typ: x.Type(), Loc: &Loc{Heap: h, Key: "(sl.base " + base.T + ")", Path: []acc{{Field: -1, Idx: c.eidx("(sl.off "+base.T+")", i)}}, Typ: u.Elem()}}
 	case *types.Pointer:
 		arr := u.Elem().Underlying().(*types.Array)
 		f.oblige("bounds", f.srcKey(x.Pos(), "index"), f.inBounds(i, c.idxLit(arr.Len())), x.Pos(), "index out of range")
